@@ -13,5 +13,5 @@ Separate Extraction
   Future.session_present Future.return_code Future.return_codes
   TraceScan.scan_sbs TraceScan.scan_pubrec TraceScan.unresolved
   TraceScan.hs_step TraceScan.scan_hs TraceScan.hs_twice TraceScan.ack_step TraceScan.scan_ack TraceScan.scan_noack TraceScan.order_step TraceScan.scan_order TraceScan.resend_step TraceScan.scan_resend
-  TraceScan.close_step TraceScan.scan_close TraceScan.error_closes_ok TraceScan.rel_step TraceScan.rel_ok TraceScan.scan_rel
+  TraceScan.close_step TraceScan.scan_close TraceScan.error_closes_ok TraceScan.rel_step TraceScan.rel_ok TraceScan.scan_rel TraceScan.kept_step TraceScan.scan_kept
   Tracker.tk_new Tracker.tk_reset Tracker.tk_window Tracker.tk_ping Tracker.tk_pong Tracker.tk_pending Tracker.pinger_decide.
